@@ -31,6 +31,9 @@ type state struct {
 
 var kinds = map[string]*kind{}
 
+// tools: `corr <tool> args…` — helpers of the end-to-end checks that need the real packages (not case kinds)
+var tools = map[string]func(args []string) int{}
+
 func hx(b []byte) string {
 	if len(b) == 0 {
 		return "-"
@@ -53,6 +56,9 @@ func unhx(s string) []byte {
 var watchdogMs = 1000
 
 func main() {
+	if len(os.Args) >= 2 && tools[os.Args[1]] != nil {
+		os.Exit(tools[os.Args[1]](os.Args[2:]))
+	}
 	if len(os.Args) < 3 {
 		fmt.Fprintln(os.Stderr, "usage: corr gen|run <kind> ...")
 		os.Exit(2)
